@@ -11,10 +11,10 @@ use vcore::*;
 
 fn plan(property: &str) -> BatchPlan {
     match property {
-        "C12" => BatchPlan { quick_runs: 40_000, thorough_runs: 6_000_000 },
-        "C03" => BatchPlan { quick_runs: 200_000, thorough_runs: 20_000_000 },
-        "C14" => BatchPlan { quick_runs: 60_000, thorough_runs: 6_000_000 },
-        "C06" | "C15" | "C02" => BatchPlan { quick_runs: 60_000, thorough_runs: 6_000_000 },
+        "C12" => BatchPlan { quick_runs: 200_000, thorough_runs: 10_000_000 },
+        "C03" => BatchPlan { quick_runs: 1_000_000, thorough_runs: 30_000_000 },
+        "C14" => BatchPlan { quick_runs: 300_000, thorough_runs: 10_000_000 },
+        "C06" | "C15" | "C02" => BatchPlan { quick_runs: 300_000, thorough_runs: 10_000_000 },
         _ => BatchPlan { quick_runs: 5_000, thorough_runs: 500_000 },
     }
 }
